@@ -156,6 +156,9 @@ type Reply struct {
 	Step    uint64
 	Ev      uint64
 	Conn    int // client that received it
+	// for stray replies:
+	StrayRid [16]byte
+	Recycled bool
 }
 
 type ReqRec struct {
@@ -170,6 +173,7 @@ type ReqRec struct {
 	Replies []Reply
 	done    chan struct{}
 	lost    bool // the connection died before a terminal reply could arrive
+	excused bool // its reply was delivered under a foreign RequestId (finding F8)
 }
 
 func (r *ReqRec) String() string {
@@ -182,9 +186,13 @@ type History struct {
 	ev      uint64
 	reqs    map[[16]byte]*ReqRec
 	order   []*ReqRec
-	stray   []Reply // replies whose RequestId nobody sent
+	stray   []Reply // replies delivered to a connection that did not send their RequestId
 	onReply []func(r *ReqRec, rep *Reply)
 	onInv   []func(r *ReqRec)
+	// atRisk, if set, reports a request of this client whose granted hold was already ended by
+	// somebody else before its SUCCED reply was produced (finding F8: the reply is then built
+	// from a command object that may have been recycled).
+	atRisk func(conn int) *ReqRec
 }
 
 func newHistory(w *World) *History { return &History{w: w, reqs: map[[16]byte]*ReqRec{}} }
@@ -209,9 +217,17 @@ func (h *History) reply(conn int, rid [16]byte, rep Reply) {
 	ssched.NoPreempt(func() {
 		rep.T, rep.Step, rep.Ev, rep.Conn = h.w.now(), h.w.S.Steps, h.nextEv(), conn
 		r := h.reqs[rid]
-		if r == nil {
+		if r == nil || r.Client != conn {
+			rep.StrayRid = rid
+			if h.atRisk != nil {
+				if g := h.atRisk(conn); g != nil {
+					rep.Recycled = true
+					g.excused = true
+					h.w.probe("reply_from_recycled_command")
+				}
+			}
 			h.stray = append(h.stray, rep)
-			h.w.logf("R stray conn=%d rid=%x res=%d", conn, rid, rep.Result)
+			h.w.logf("R stray conn=%d rid=%x res=%d recycled=%v", conn, rid, rep.Result, rep.Recycled)
 			return
 		}
 		r.Replies = append(r.Replies, rep)
